@@ -777,7 +777,8 @@ impl InterpDriver {
                     };
                     total_bits = total_bits.max(count_bits(&r.script_bits()));
                     let total_bits_top = r.script_bits().len();
-                    let bound = total_bits + 2;
+                    // generous: an implementation may spend separate steps on OP_ELSE / OP_ENDIF
+                    let bound = 4 * total_bits + 16;
                     let mut states = vec![snap(&r)];
                     let mut bits_at = vec![];
                     let outcome;
@@ -977,7 +978,7 @@ impl InterpDriver {
                     }
                     let n_calls = match op.as_str() {
                         "next" => 1,
-                        "next_n" => jusize(ev, "n").min(total_bits + 4),
+                        "next_n" => jusize(ev, "n").min(4 * total_bits + 32),
                         _ => 0,
                     };
                     if op == "peek" {
@@ -1148,7 +1149,7 @@ impl InterpDriver {
                 } else {
                     loop {
                         guard_steps += 1;
-                        if guard_steps > total_bits + 4 {
+                        if guard_steps > 4 * total_bits + 32 {
                             ctx.violate("loop", "loop:drain".into(), "next() did not terminate within flattened-size+4 calls".into());
                             return;
                         }
